@@ -61,6 +61,16 @@ def nesting_depth(fail):
     return fail.get("kind") == "abort" and fail.get("site") == "stack-overflow" and fail.get("depth", 0) >= 10000
 
 
+def nested_anonymous_routines_unclosed_paren(fail):
+    """F34: super-polynomial time when an unclosed `(` precedes a nested routine inside >= 4 levels of nested
+    anonymous routines (every level's bounded child-line search is repeated inside its parent's)"""
+    if fail.get("kind") != "hang":
+        return False
+    t = _text(fail)
+    anon_heads = len(re.findall(r"(?mi)^[ \t]*(?:\w+[ \t]*:=[ \t]*)?(?:procedure|function)[ \t]*(?:\([^)\n]*\))?[ \t]*(?::[ \t]*\w+)?[ \t]*$", t))
+    return anon_heads >= 4 and t.count("(") > t.count(")")
+
+
 def cursor_mid_char_changed_token(fail):
     """F9: cursor at/inside a token whose text changed and contains non-ASCII"""
     return fail.get("kind") == "cursor_not_on_char_boundary" and fail.get("token_class") == "changed_token"
@@ -148,7 +158,7 @@ def witness_inputs(prop):
     return out
 
 
-DETECTORS = {f.__name__: f for f in [lone_cr_after_line_comment, overflow_by_closers_after_line_comment, wider_more_lines_in_overflow_regime, wider_more_lines_cheaper_break_kind, mlstring_width_dependence,
+DETECTORS = {f.__name__: f for f in [nested_anonymous_routines_unclosed_paren, lone_cr_after_line_comment, overflow_by_closers_after_line_comment, wider_more_lines_in_overflow_regime, wider_more_lines_cheaper_break_kind, mlstring_width_dependence,
     cr_after_line_comment_in_region, literal_then_gap, mlstring_in_child_line_reflow,
     trailing_exotic_blank_in_line_comment, unterminated_literal_trailing_blank, continuation_saturates,
     nesting_depth, cursor_mid_char_changed_token, cursor_u16_truncation, mlstring_last_terminator_lone_cr,
